@@ -24,7 +24,8 @@ use std::collections::{BTreeMap, BTreeSet};
 pub enum Sym {
     Ihw,
     Tdh { nd: bool, cont: bool },
-    Tdt { done: bool },
+    /// flags: bit 0 transmission timeout, bit 1 lane starts violation (legal companions of packet_done in byte 8)
+    Tdt { done: bool, flags: u8 },
     Ddw0,
     Cdw,
     IbData,
@@ -40,7 +41,10 @@ pub fn all_syms() -> Vec<Sym> {
             v.push(Sym::Tdh { nd, cont });
         }
     }
-    v.extend([Sym::Tdt { done: false }, Sym::Tdt { done: true }, Sym::Ddw0, Sym::Cdw, Sym::IbData, Sym::ObData, Sym::Unknown, Sym::NewPacket]);
+    for flags in 0..4u8 {
+        v.extend([Sym::Tdt { done: false, flags }, Sym::Tdt { done: true, flags }]);
+    }
+    v.extend([Sym::Ddw0, Sym::Cdw, Sym::IbData, Sym::ObData, Sym::Unknown, Sym::NewPacket]);
     v
 }
 
@@ -48,7 +52,7 @@ pub fn word_of(s: Sym) -> Option<[u8; 10]> {
     Some(match s {
         Sym::Ihw => words::ihw(0x0FFF_FFFF),
         Sym::Tdh { nd, cont } => words::Tdh { trigger_type: 0x003, internal: true, no_data: nd, continuation: cont, bc: 0x10, orbit: 0xAB }.encode(),
-        Sym::Tdt { done } => words::Tdt::done(done),
+        Sym::Tdt { done, flags } => words::Tdt { packet_done: done, transmission_timeout: flags & 1 != 0, lane_starts_violation: flags & 2 != 0, ..Default::default() }.encode(),
         Sym::Ddw0 => words::Ddw0::default().encode(),
         Sym::Cdw => words::cdw(0x1111, 0),
         Sym::IbData => words::data_word(0x20, [0x11; 9]),
